@@ -454,8 +454,17 @@ func (d *Decoder) decodeSet(mem MemCache, msg *Message) error {
 		} else {
 			// Data set
 			var data []DecodedField
+			recordStart := d.reader.ReadCount()
 			data, err = d.decodeData(tr)
 			if err == nil {
+				if d.reader.ReadCount() == recordStart {
+					// a record that consumes no octets would repeat forever
+					err = nonfatalError(fmt.Errorf("%s zero-length data record (netflow template id# %d)",
+						d.raddr.String(),
+						setHeader.FlowSetID,
+					))
+					break
+				}
 				msg.DataSets = append(msg.DataSets, data)
 			}
 		}
